@@ -52,6 +52,7 @@ class Target:
         self.disk = Disk(ctx, block_size)
         self.commands = []
         self.status = []
+        self.rc16_tail = [0, 0, 0, 0]  # READ CAPACITY(16) bytes 12..15 (protection, LBPPBE, alignment): any values
 
     def _spec(self, cdb):
         op = cdb[0]
@@ -99,7 +100,7 @@ class Target:
             return 0
         if name == "READ CAPACITY(16)":
             v = self.last_lba
-            out = [(v >> (8 * (7 - i))) & 0xFF for i in range(8)] + [0, 0, (bs >> 8) & 0xFF, bs & 0xFF] + [0] * 20
+            out = [(v >> (8 * (7 - i))) & 0xFF for i in range(8)] + [0, 0, (bs >> 8) & 0xFF, bs & 0xFF] + list(self.rc16_tail) + [0] * 16
             n = min(len(datain), 32)
             datain[0:n] = out[:n]
             return 0
